@@ -9,7 +9,7 @@ From Coq Require Import List NArith ZArith Bool Sorted.
 Import ListNotations.
 Require Import Verif.Lib.Wire Verif.Lib.C04Sort Verif.Gen.Facts_C04 Verif.Model.C04 Verif.Model.C04_entry Verif.Model.C04_err Verif.Gen.Exec_C04.
 Require Import Verif.Proofs.C04 Verif.Proofs.C04_flat Verif.Proofs.C04_decide Verif.Proofs.C04_safe Verif.Proofs.C04_groups Verif.Proofs.C04_spec Verif.Proofs.C04_mono Verif.Proofs.C04_one Verif.Proofs.C04_defer Verif.Proofs.C04_step Verif.Proofs.C04_all Verif.Proofs.C04_order Verif.Proofs.C04_gen Verif.Proofs.C04_late Verif.Proofs.C04_entry Verif.Proofs.C04_pos Verif.Proofs.C04_err Verif.Proofs.C04_text.
-Require Import Verif.Proofs.C04_sim.
+Require Import Verif.Proofs.C04_sim Verif.Proofs.C04_sim2.
 
 (* ---- the control flow of ActionState.execute_actions and of ActionConfiguratorMixin.action is REGENERATED from the
    source on every run (harness/c04/translate.py -> Gen/Exec_C04.v); it equals the hand-written model *)
@@ -505,3 +505,36 @@ Theorem C04_group_discard_is_filter : forall grp rem discards rem2,
   rem2 = filter (not_among (map aidx discards)) (mark_group grp rem).
 Proof. exact group_discard_is_filter. Qed.
 Print Assumptions C04_group_discard_is_filter.
+
+(* ---- the pass that follows a (re-)declaration, group by group, against the specification's recomputation on the pool
+   (pool = remaining_actions ++ new declarations): every order group is, AS A LIST, the specification's [at_phase]; it
+   forces exactly what the specification forces ([forces_of], same order) -- the restart form of "Deferred
+   discriminators are resolved when their phase is reached" in the specification's own terms --; and, identities being
+   distinct, marking the group forced in remaining_actions is the specification's [force_phase] *)
+Theorem C04_restart_group_is_spec_phase : forall st new k grp,
+  let pool := remaining st ++ new in
+  In (k, grp) (g_groups (snd (restart st new))) ->
+  map snd grp = at_phase k pool /\
+  force_events grp = forces_of (at_phase k pool) /\
+  (NoDup (map aid pool) -> mark_group grp (remaining (fst (restart st new))) = force_phase k pool).
+Proof. exact restart_group_is_spec_phase. Qed.
+Print Assumptions C04_restart_group_is_spec_phase.
+
+Example C04_restart_group_is_spec_phase_nonvacuous :
+  map (fun kg => (fst kg, map aidx (snd kg))) (g_groups (snd (restart w_st w_new))) = [(0%Z, [1%N]); (5%Z, [0%N; 2%N])] /\
+  NoDup (map aid (remaining w_st ++ w_new)) /\
+  forces_of (at_phase 0 (remaining w_st ++ w_new)) = [Force 1%N].
+Proof. exact restart_group_witness. Qed.
+
+(* the first group's key is the specification's smallest pending phase *)
+Theorem C04_restart_first_group_is_min_phase : forall st new k grp gs,
+  g_groups (snd (restart st new)) = (k, grp) :: gs ->
+  min_phase (remaining st ++ new) = Some k.
+Proof. exact restart_first_group_is_min_phase. Qed.
+Print Assumptions C04_restart_first_group_is_min_phase.
+
+(* mark_group, element by element: exactly the actions whose identity occurs in the group are forced *)
+Theorem C04_mark_group_elementwise : forall grp l,
+  mark_group grp l = map (fun b => if in_group grp b then force b else b) l.
+Proof. exact mark_group_map. Qed.
+Print Assumptions C04_mark_group_elementwise.
